@@ -14,7 +14,8 @@ EXPLANATION = ("Exception containment in the backend. R1: between prepare_read a
                "(write_log, flush_sink; run_periodic_tasks and Filter::filter must be declared noexcept) and every throw statement in "
                "the dispatch path is contained by a catch-all on every call chain from the poll loop. R4: _poll() is called inside "
                "try + catch-all inside the worker loop and in poll_one; every handler of the backend reports through the error "
-               "notifier except the one named swallow. R5: 'backtrace without init' is a throw inside the per-event try.")
+               "notifier except the one named swallow. R5: 'backtrace without init' is a throw inside the per-event try."
+               " R8: an undefined error_notifier (documented: disables notifications) is replaced by a callable in _init or every call is guarded (found the tree's fourteenth defect). R9 (= C19.R2): the named-args list is sized by the names. R10: QuillError owns its text. R11: every handler of the formatting try clears the message, appends the error text and reports it, in this order.")
 NOT_DECIDED = ("The text of the error message; 'at most that one statement is missing from that sink and the sinks after it' as a "
                "count; exceptions thrown by user copy constructors during decoding.")
 ASSUMPTIONS = ["exceptions enabled (QUILL_NO_EXCEPTIONS not defined)", "the user's error_notifier itself does not throw"]
@@ -33,6 +34,7 @@ def run(ctx):
         r4(ctx, facts, cfg)
         r8_notifier_callable(ctx, facts, cfg)
         r10_error_owns_its_text(ctx, facts, cfg)
+        r11_error_text_in_place(ctx, facts, cfg)
     # state that is reused from one statement to the next must not carry a failed (or any earlier) statement into the next one:
     # the shared argument store (= C04.R6) and the JSON sink's message buffer (= C19.R3)
     from rules import c04, c19
@@ -328,3 +330,38 @@ def r10_error_owns_its_text(ctx, facts, cfg):
     ctx.ob("C10.R10", "QuillError:owns-its-text", not nonown and bool(owned) and from_owned and init_ok,
            "no member merely refers to memory owned elsewhere (%s), every constructor copies / moves its argument into the owned string "
            "(%s, %d constructor(s)) and what() returns that string's characters (%s)" % (nonown, init_ok, len(ctors), from_owned), loc=crec.get("loc", ""))
+
+
+def r11_error_text_in_place(ctx, facts, cfg):
+    """R11: 'written with an explanatory error text in place of its message': every handler of the formatting try in
+    _populate_formatted_log_message empties the (possibly half-written) message, appends the error text to it and reports the same text,
+    in that order, on every path."""
+    f = facts.need(BW + "_populate_formatted_log_message", cfg)[0]
+    g = f.g
+    tries = [x for x in f.walk() if x["k"] == "CXXTryStmt" and any(is_call(y, r"^fmtquill::(v\d+::)?vformat_to") for y in walk(x.get("tryblock")))]
+    if len(tries) != 1:
+        raise AnalysisBroken("_populate_formatted_log_message: formatting try not found")
+    hs = tries[0].get("handlers") or []
+    n = 0
+    for h in hs:
+        n += 1
+        body = h.get("body")
+
+        def inb(c):
+            return in_subtree(c, body)
+
+        def on_msg(c):
+            return any(x["k"] == "MemberExpr" and x.get("mname") == "formatted_msg" for x in walk(call_obj(c)))
+        clr = [c for c in f.calls(r"::clear$") if inb(c) and on_msg(c)]
+        app = [c for c in f.calls(r"::append\b") if inb(c) and on_msg(c)]
+        rep = [c for c in f.walk() if c["k"] == "CXXOperatorCallExpr" and inb(c) and c.get("args") and
+               any(x["k"] == "MemberExpr" and x.get("mname") == "error_notifier" for x in walk(c["args"][0]))]
+        errv = {var_ref(strip(c["args"][0], casts=True)) for c in app} | {var_ref(strip(c["args"][1], casts=True)) for c in rep if len(c["args"]) > 1}
+        cp, ap, rp = npos(f, clr), npos(f, app), npos(f, rep)
+        entry = g.positions(body) or cp
+        ok = len(clr) == 1 and len(app) == 1 and len(rep) == 1 and len(errv) == 1 and None not in errv and \
+            not g.exists_path(ap, cp) and not g.exists_path(cp, [g.exit_node], avoid_nodes=ap) and not g.exists_path(ap, [g.exit_node], avoid_nodes=rp)
+        ctx.ob("C10.R11", "_populate_formatted_log_message:handler(%s):error-text-replaces-message" % h.get("caught"), ok,
+               "the handler clears the message, appends the error text and reports that same text, in this order, on every path "
+               "(clear %d, append %d, report %d)" % (len(clr), len(app), len(rep)), fn=f, loc=(body or {}).get("loc", ""))
+    ctx.floor("C10.R11", "handlers of the formatting try", n, 2)
